@@ -18,6 +18,8 @@ RULE = ("cases = generated well-formed plotfiles x every single site of the corr
         "non-trivial = site at a non-first file / non-first box / level > 0 / last box of its file")
 ASSUMPTIONS = ["strict.py is the specification of 'inconsistent' (lenient token grammar, see "
                "DESIGN 3.2)", "pool shim M1 in-process"]
+# the share of cases also run under python -O (1 = all): the anchor code validates with assert statements
+OPT_SUBSET = {"quick": 1, "thorough": 2}
 REQUIRED_OBS = {"mutants_in_scope": 500, "set:operators_in_scope": 14, "pairs_in_scope": 20,
                 "coords_mutants_in_scope": 20, "cli_mutants": 30, "compensating_pairs": 10}
 CHAIN = {"quick": 2, "thorough": 10}
